@@ -1,3 +1,5 @@
+//go:build drv_csync || drv_all
+
 package drivers
 
 import (
